@@ -118,8 +118,10 @@ fn run_scenario(sc: &Value) {
                 let h = EventLoops::submit_task(
                     Some(format!("t{t}-e2e")),
                     move |_| {
-                        RAN.fetch_add(1, Ordering::SeqCst);
+                        // record first, count second: the main thread writes `settled` (and leaves the
+                        // process) as soon as the counter is complete, every run must be in the trace by then
                         rec(json!({"ev": "task_run", "task": t, "loop": loop_of_thread()}));
+                        RAN.fetch_add(1, Ordering::SeqCst);
                         match kind.as_str() {
                             "suspend" => {
                                 if let Some(s) = open_coroutine_core::scheduler::SchedulableSuspender::current() {
@@ -231,10 +233,13 @@ fn run_scenario(sc: &Value) {
                 let t0 = Instant::now();
                 let r = h.0.timeout_join(Duration::from_millis(join_ms));
                 let ms = t0.elapsed().as_millis() as u64;
+                // `tr`: the moment the join came back, on the trace clock (the record itself may be
+                // written later if this thread loses the CPU)
+                let tr = mono_ns() / 1000;
                 match r {
-                    Ok(Ok(v)) => rec(json!({"ev": "join_e", "task": t, "out": "ok", "v": v.unwrap_or(0), "ms": ms, "limit": join_ms})),
-                    Ok(Err(m)) => rec(json!({"ev": "join_e", "task": t, "out": "err", "v": m.strip_prefix('p').and_then(|x| x.parse::<u64>().ok()).unwrap_or(0), "msg": m, "ms": ms, "limit": join_ms})),
-                    Err(e) => rec(json!({"ev": "join_e", "task": t, "out": if e.kind() == std::io::ErrorKind::TimedOut { "timeout" } else { "error" }, "v": 0, "ms": ms, "limit": join_ms})),
+                    Ok(Ok(v)) => rec(json!({"ev": "join_e", "task": t, "out": "ok", "v": v.unwrap_or(0), "ms": ms, "limit": join_ms, "tr": tr})),
+                    Ok(Err(m)) => rec(json!({"ev": "join_e", "task": t, "out": "err", "v": m.strip_prefix('p').and_then(|x| x.parse::<u64>().ok()).unwrap_or(0), "msg": m, "ms": ms, "limit": join_ms, "tr": tr})),
+                    Err(e) => rec(json!({"ev": "join_e", "task": t, "out": if e.kind() == std::io::ErrorKind::TimedOut { "timeout" } else { "error" }, "v": 0, "ms": ms, "limit": join_ms, "tr": tr})),
                 }
                 std::mem::forget(h);
             }
